@@ -127,6 +127,10 @@ private:
             }
         }
 
+        // Restore the shift given at construction: the operator object belongs to the user and is
+        // also needed again if init()/compute() is called once more on this solver
+        m_op.set_shift(m_sigmar, m_sigmai);
+
         Base::sort_ritzpair(sort_rule);
     }
 
